@@ -29,7 +29,7 @@ ASSUMPTIONS = ["lanelet polygon = right boundary followed by the reversed left b
                "file routes write with the library's own writers at precision 4; all coordinates are multiples of 0.5"]
 
 ROUTES = ["from_list", "add_asc", "add_desc", "scenario_add", "xml", "pb", "deepcopy", "pickle", "from_network", "scenario_deepcopy", "add_no_rtree",
-          "swap_remove_first", "swap_add_first", "readd_moved", "shared_arrays_then_shift", "mixed_dtypes"]
+          "swap_remove_first", "swap_add_first", "readd_moved", "shared_arrays_then_shift", "mixed_dtypes", "source_of_pickle", "source_of_copies"]
 SHIFT = (16.0, -8.0)
 
 
@@ -149,6 +149,14 @@ def build_network(ids, route, tmpdir):
         return copy.deepcopy(sc.lanelet_network)
     if route == "pickle":
         return pickle.loads(pickle.dumps(sc.lanelet_network))
+    if route in ("source_of_pickle", "source_of_copies"):
+        # the network that was serialised / copied (shallow and deep): making the copy is a read-only use of it
+        net = sc.lanelet_network
+        if route == "source_of_pickle":
+            pickle.dumps(net); pickle.dumps(sc)
+        else:
+            copy.copy(net); copy.deepcopy(net); copy.copy(sc)
+        return net
     from commonroad.common.file_writer import CommonRoadFileWriter, OverwriteExistingFile
     from commonroad.common.file_reader import CommonRoadFileReader
     from commonroad.common.util import FileFormat
